@@ -2,7 +2,6 @@
 import json
 
 NA_REASONS = {
-    "C05": "Agreement of compute/persist/optimize/to_delayed entry points and name preservation is dask's collection protocol over object identity and names; there is no input dimension a solver can quantify that the entry points do not treat opaquely.",
     "C06": "'Equal names => equal arrays' is a statement about tokenize (hashing/pickling loops over bytes) and process-global registries; a collision is a hash/registry fact, not arithmetic an SMT encoding of the code can reach.",
     "C07": "Determinism across processes and pickle round trips: serialization and hashing live behind C code and whole-process runs; nothing symbolic to execute.",
     "C10": "Thread schedules and in-place mutation of NumPy buffers by C kernels (views vs copies): concurrency and FFI are outside what the engine can model.",
@@ -203,6 +202,21 @@ check("C11",
       "bookkeeping of out= (handle_out), mask propagation of masked values, array/boolean/dask keys.",
       "DESIGN.md 6 C11")
 
+check("C05",
+      "Solver-decided for the entry points that are code of this repository, on the catalogue programs (sizes, bounds and data "
+      "symbolic): Array.compute's pinned expression under the FinalizeComputeArray layer yields NumPy's value; Array.persist -- "
+      "the pinned graph executed for exactly the advertised keys, the results dict handed to the rebuild function "
+      "__dask_postpersist__ returns (from_graph/FromGraph, with the collection's own keys and with outputs renamed by the "
+      "scheduler) -- keeps name, chunks, dtype and keys and yields the same blocks; dask.optimize(x) -- dask's own generic "
+      "Expr.__dask_graph__ walk over the collection's un-lowered expression followed by the same rebuild -- keeps name, chunks, "
+      "dtype and yields the same value; x.optimize() keeps dtype and value; a slice / a negation applied to the persisted / "
+      "optimized collection yields what it yields on x.",
+      "Trusted: as C01; the graph runner stands for the scheduler (returns {key: block} for the advertised keys); dask.base's "
+      "drivers (collections_to_expr, unpack/repack) are not executed -- the generic walk is. Known finding (listed, not "
+      "repaired): dask.optimize over an aligned Blockwise whose operands still need unifying. Outside: several collections at "
+      "once, to_delayed, distributed futures.",
+      "DESIGN.md 6 C05", technique="bounded symbolic execution of the repo's own optimizer pipeline and layers on symbolic-size expression trees (symx nodes) + symbolic-array graph execution + z3 SMT (QF_UFLIA)")
+
 check("C20",
       "Solver-decided for map_blocks calls with one array input whose function reads block_info (or block_id), placed in ten "
       "enumerated programs with rewrites above the call (slice, transpose, rechunk) and below it (a rechunk the optimizer "
@@ -307,7 +321,7 @@ def main():
                       kind_free_text="proxy-based symbolic executor for Python function objects over z3 (path enumeration by re-execution, solver-decided obligations, concrete replay)")],
         checks=[CHECKS[k] for k in sorted(CHECKS)],
         notes="All checks: ./check <ID> [--tier quick|thorough]; exit 0 pass, 1 VIOLATION, 2 inconclusive/harness error. "
-              "Fix commits in /repo: 15fbc37 (normalize_slice), bfce058 (_bound_degree budget), 82ae11e (normalize_chunks negatives), 5b1d580 (no-op rechunk lowering with balance=True), 9952173 (assignment through an empty reversed slice), 0adac22 (moment_combine empty blocks), f45e2be (split_every dict < 2), 99be851 (arg-reduction tie order over all axes), 1041dc1 (reversed slices over zero-width chunks), 2ddac4e (degree pass budget for 1-d rechunks), a3f6b80 (VIndexArray nested output keys), 2abb8f3 (take through broadcast_to), 28c955e (unaligned blockwise tie-break), 3995a9e (topk output size), bc5089d (argtopk keep-all branch), 15af49d (map_overlap trim=False metadata).",
+              "Fix commits in /repo: 15fbc37 (normalize_slice), bfce058 (_bound_degree budget), 82ae11e (normalize_chunks negatives), 5b1d580 (no-op rechunk lowering with balance=True), 9952173 (assignment through an empty reversed slice), 0adac22 (moment_combine empty blocks), f45e2be (split_every dict < 2), 99be851 (arg-reduction tie order over all axes), 1041dc1 (reversed slices over zero-width chunks), 2ddac4e (degree pass budget for 1-d rechunks), a3f6b80 (VIndexArray nested output keys), 2abb8f3 (take through broadcast_to), 28c955e (unaligned blockwise tie-break), 3995a9e (topk output size), bc5089d (argtopk keep-all branch), 15af49d (map_overlap trim=False metadata), 111a6f6 (Reduction under a generic graph walk). Known finding (not repaired): dask.optimize over an aligned Blockwise with unaligned operands (C05).",
         not_applicable=na,
     )
     json.dump(m, open("MANIFEST.json", "w"), indent=1)
